@@ -574,7 +574,7 @@ _with_sanitizers("C02", lambda seed: [san_step("miri_udp_select", "miri", "vudp"
 PLANS["C02"]["level_text"] += SAN_NOTE["miri"]
 # C04: the threaded stress program under Miri (data races, the Arc::get_mut / strong-count protocol, deadlock) with different
 # scheduler seeds per shard.
-_with_sanitizers("C04", lambda seed: [san_step("miri_udp_stress_s%d" % i, "miri", "vudp", "udp_stress", ["--rounds", "6", "--budget_s", "240", "--no_watchdog", "--shard", str(201 + i)], miriflags="-Zmiri-seed=%d" % (seed * 16 + i)) for i in range(4)])
+_with_sanitizers("C04", lambda seed: [san_step("miri_udp_stress_s%d" % i, "miri", "vudp", "udp_stress", ["--rounds", "14", "--budget_s", "240", "--no_watchdog", "--shard", str(201 + i)], miriflags="-Zmiri-seed=%d" % (seed * 16 + i), stacked_borrows=True) for i in range(4)])
 PLANS["C04"]["level_text"] += " Also (thorough): four shards of the stress program under Miri with distinct scheduler seeds (data races, invalid Arc::get_mut use, deadlock as reported by the interpreter)."
 # C11: reload sequences through ArcSwap and the caches under Miri.
 _with_sanitizers("C11", lambda seed: miri_shards("access_list", "vproto", "access_list", 2, ["--sequences", "25", "--budget_s", "240"]))
@@ -587,3 +587,12 @@ PLANS["C20"]["level_text"] += SAN_NOTE["miri"]
 _c12fz = PLANS["C12"]["steps"]
 PLANS["C12"]["steps"] = lambda tier, seed: _c12fz(tier, seed) + ([{"name": "libfuzzer", "kind": "script", "script": "fuzz_step.py", "args": ["--secs", "200"], "timeout_s": 3000}] if tier == "thorough" else [])
 PLANS["C12"]["level_text"] += " Coverage-guided pass (thorough): eight libFuzzer targets (udp request/response, http request bytes / get path / response, ws in text / binary, ws out) built with AddressSanitizer, overflow checks and debug assertions, seeded with the shard corpus, 200 s each with forked workers; libFuzzer only generates the workload, the oracle is the panic / abort / sanitizer report / rss limit that ends a fuzzing process."
+# C16 / C17 (and the http / ws halves of C12): the glommio-based trackers in-process under AddressSanitizer, driven by the
+# ordinary live scenarios (framing / routing) and the hostile corpus. Tried in the extension phase: glommio's io_uring
+# executor runs clean under ASan on this image (no report on the unchanged tree), so the passes are registered.
+_with_sanitizers("C16", lambda seed: [san_step("asan_http_framing_2x2", "asan", "vhttp", "http_live", ["--scenario", "framing", "--socket_workers", "2", "--swarm_workers", "2", "--requests", "1500", "--max_peers", "50"], crash_is_violation=True),
+                                      san_step("asan_http_corpus", "asan", "vhttp", "http_live", ["--scenario", "corpus", "--cases", "1500", "--socket_workers", "2", "--swarm_workers", "2"], crash_is_violation=True)])
+PLANS["C16"]["level_text"] += " Sanitizer pass (thorough): the framing scenario (2x2 workers) and the hostile corpus against the tracker rebuilt with AddressSanitizer (request buffers, httparse, the hand-written response writer)."
+_with_sanitizers("C17", lambda seed: [san_step("asan_ws_routing_2x2", "asan", "vws", "ws_live", ["--scenario", "routing", "--socket_workers", "2", "--swarm_workers", "2", "--ops", "300"], crash_is_violation=True),
+                                      san_step("asan_ws_corpus", "asan", "vws", "ws_live", ["--scenario", "corpus", "--cases", "1500"], crash_is_violation=True)])
+PLANS["C17"]["level_text"] += " Sanitizer pass (thorough): the routing scenario (2x2 workers) and the hostile JSON corpus against the tracker rebuilt with AddressSanitizer (simd-json on live input, tungstenite framing)."
